@@ -30,12 +30,12 @@ CONSTANTS
   MaxH,                \* handle ids 1..MaxH
   MaxTime,             \* virtual clock bound
   Timeouts,            \* set of timeout durations (>= 1)
-  OpKinds,             \* subset of {"tell","ask","tellT","askT","stop","kill"}
+  OpKinds,             \* subset of {"tell","ask","tellT","askT","askJ","stop","kill"}  (askJ = ask_join)
   StartOuts,           \* subset of {"ok","err","panic"}
   HandlerOuts,         \* subset of {"ok","panic"}
   RunOuts,             \* subset of {"true","false","err","panic"}
   StopOuts,            \* subset of {"ok","err","panic"}
-  NestKinds,           \* subset of {"ask","askT","tell"}: ops a hook may perform
+  NestKinds,           \* subset of {"ask","askT","askJ","tell","kill"}: ops a hook may perform
   NestHooks,           \* subset of {"Start","Handler","Stop"}: hooks that may do them
   HandleOps,           \* subset of {"clone","drop","down","up","alive","ident","erase"}
   EraseKinds,          \* subset of {"tellh","askh","ctl"}: type-erased wrappers a handle may be converted to
@@ -63,10 +63,12 @@ ClientIdx(c) == CHOOSE i \in DOMAIN ClientSeq : ClientSeq[i] = c
 OpIds == 1..MaxOps
 HIds  == 1..MaxH
 
-SendKinds  == {"tell","ask","tellT","askT","stop"}
-AskKinds   == {"ask","askT"}
+SendKinds  == {"tell","ask","tellT","askT","askJ","stop"}
+AskKinds   == {"ask","askT","askJ"}
 TimedKinds == {"tellT","askT"}
-MsgKinds   == {"tell","ask","tellT","askT"}
+MsgKinds   == {"tell","ask","tellT","askT","askJ"}
+\* askJ = ActorRef::ask_join: the handler spawns a task and replies with its JoinHandle; the asker then awaits the task
+TaskOuts   == {"ok","panic"}
 
 NoRes == [k |-> "none", phase |-> "", killed |-> FALSE, has |-> FALSE, err |-> "", msg |-> ""]
 
@@ -82,7 +84,7 @@ NoOpRec == [own |-> "", kind |-> "", h |-> 0, a |-> "", m |-> 0, dl |-> -1, ph |
 NoHandle == [a |-> "", k |-> "none", vk |-> "ref"]
 
 \* operations a (strong) handle of wrapper kind vk offers (handler.rs / actor_control.rs)
-KindsOf(vk) == IF vk = "ref" THEN {"tell","ask","tellT","askT","stop","kill"}
+KindsOf(vk) == IF vk = "ref" THEN {"tell","ask","tellT","askT","askJ","stop","kill"}
                ELSE IF vk = "tellh" THEN {"tell","tellT","stop","kill"}
                ELSE IF vk = "askh" THEN {"ask","askT","stop","kill"}
                ELSE {"stop","kill"}
@@ -94,6 +96,7 @@ InitState ==
    O |-> [o \in OpIds |-> NoOpRec],
    C |-> [c \in Clients |-> 0],
    wf |-> [a \in Actors |-> ""],         \* wait-for graph: caller |-> callee ("" = no edge)
+   T |-> [m \in 1..MaxMsg |-> "none"],   \* tasks spawned by ask_join handlers, by request: "none" | "run" | "ok" | "panic"
    dlc |-> 0,                            \* dead-letter counter
    used |-> 0,
    pr |-> 0]                             \* clients ClientSeq[1..used] have issued an op (symmetry reduction)
@@ -233,9 +236,18 @@ SendPoll(s, o) ==
        IF A.closed THEN FailSend(SetA(s, a, [granted |-> A.granted \ {o}]), o)
        ELSE Push(SetA(s, a, [granted |-> A.granted \ {o}]), o, FALSE)
 
+\* ask_join, second half: the JoinHandle received as the reply is awaited (actor_ref.rs:934-947)
+JoinPoll(s, o) ==
+  IF s.T[s.O[o].m] = "ok" THEN Done(s, o, "ok", s.O[o].rv) ELSE Done(s, o, "join", 0)
+
 ReplyPoll(s, o) ==
   LET op == s.O[o] IN
-  IF op.rep = "val" THEN Done(s, o, "ok", op.rv)
+  IF op.rep = "val" THEN
+       IF op.kind = "askJ"
+         THEN \* `ask` has returned: its wait-for guard is gone although the operation goes on; the handle is polled at once
+              LET s1 == SetO(IF AskerGuard THEN ClearEdge(s, op.own) ELSE s, o, [ph |-> "join"])
+              IN  IF s.T[op.m] \in TaskOuts THEN JoinPoll(s1, o) ELSE R(s1, <<>>)
+         ELSE Done(s, o, "ok", op.rv)
   ELSE \* "closed": oneshot sender dropped without a value
        LET r == Done([s EXCEPT !.dlc = @ + 1], o, "recv", 0)
        IN  R(r.s, << DeadLetterEv(s, o, "dropped") >> \o r.evs)
@@ -255,16 +267,18 @@ InnerReady(s, o) ==
   \/ op.ph = "wait" /\ s.A[op.a].closed
   \/ op.ph = "granted"
   \/ op.ph = "reply" /\ op.rep \in {"val","closed"}
+  \/ op.ph = "join" /\ s.T[op.m] \in TaskOuts
 
 Expired(s, o) == IsTimed(s, o) /\ s.O[o].ph \in {"new","wait","granted","reply"} /\ s.now >= s.O[o].dl
 
-Pollable(s, o) == s.O[o].ph \in {"wait","granted","reply"} /\ (InnerReady(s, o) \/ Expired(s, o))
+Pollable(s, o) == s.O[o].ph \in {"wait","granted","reply","join"} /\ (InnerReady(s, o) \/ Expired(s, o))
 
 \* tokio::time::timeout polls the inner future first and the deadline second
 PollOp(s, o) ==
   LET op == s.O[o]
       r1 == IF op.ph \in {"new","wait","granted"} /\ InnerReady(s, o) THEN SendPoll(s, o)
             ELSE IF op.ph = "reply" /\ InnerReady(s, o) THEN ReplyPoll(s, o)
+            ELSE IF op.ph = "join" /\ InnerReady(s, o) THEN JoinPoll(s, o)
             ELSE R(s, <<>>)
   IN  IF r1.s.O[o].ph # "done" /\ Expired(r1.s, o)
         THEN LET detach == ~TimeoutWithdraws /\ r1.s.O[o].ph = "wait"
@@ -417,7 +431,9 @@ ExitHook(s, a, dir) ==
                         ELSE s
                  evs == << HExitEv(a, "handler", m, dir, v) >>
                         \o (IF IsAsk(s, o) THEN <<>> ELSE << [e |-> "TellResult", a |-> a, m |-> m] >>)
-            IN  Then(R(SetA(s1, a, [cur |-> 0, jl |-> Append(A.jl, "h"), mcount |-> A.mcount + 1]), evs),
+                 \* an ask_join handler has spawned its task (whether or not anybody still waits for the handle)
+                 s2 == IF s.O[o].kind = "askJ" THEN [s1 EXCEPT !.T[m] = "run"] ELSE s1
+            IN  Then(R(SetA(s2, a, [cur |-> 0, jl |-> Append(A.jl, "h"), mcount |-> A.mcount + 1]), evs),
                      LAMBDA t : SelectPart(t, a))
        \* "panic" / "slowpanic" (panics after holding the thread for a while); the metrics guard drops on unwind
        ELSE PanicOutAs(SetA(s, a, [mcount |-> A.mcount + 1]), a, "handler", m, dir)
@@ -523,7 +539,7 @@ CmdEnabled(s, cmd) ==
                                                    /\ s.O[o].dl > s.now
        [] cmd.c = "clone" -> "clone" \in HandleOps /\ s.H[cmd.h].k \in {"s","w"} /\ s.nextH <= MaxH
        [] cmd.c = "drop"  -> /\ "drop" \in HandleOps /\ s.H[cmd.h].k \in {"s","w"}
-                             /\ ~\E o \in OpIds : s.O[o].h = cmd.h /\ s.O[o].ph \in {"new","wait","granted","reply"}
+                             /\ ~\E o \in OpIds : s.O[o].h = cmd.h /\ s.O[o].ph \in {"new","wait","granted","reply","join"}
        [] cmd.c = "down"  -> "down" \in HandleOps /\ s.H[cmd.h].k = "s" /\ s.nextH <= MaxH
        [] cmd.c = "up"    -> "up" \in HandleOps /\ s.H[cmd.h].k = "w" /\ s.nextH <= MaxH
        [] cmd.c = "alive" -> "alive" \in HandleOps /\ s.H[cmd.h].k \in {"s","w"} /\ s.pr < MaxProbes
@@ -531,7 +547,7 @@ CmdEnabled(s, cmd) ==
        [] cmd.c = "erase" -> /\ "erase" \in HandleOps /\ s.H[cmd.h].k \in {"s","w"} /\ s.H[cmd.h].vk = "ref"
                              /\ cmd.vk \in EraseKinds
                              /\ (cmd.by = "ref" => s.nextH <= MaxH)
-                             /\ ~\E o \in OpIds : s.O[o].h = cmd.h /\ s.O[o].ph \in {"new","wait","granted","reply"}
+                             /\ ~\E o \in OpIds : s.O[o].h = cmd.h /\ s.O[o].ph \in {"new","wait","granted","reply","join"}
        [] cmd.c = "bg" -> s.O[cmd.op].det /\ s.O[cmd.op].ph = "new"      \* deviations only
        [] cmd.c = "quiesce" ->
             /\ \A c \in Clients : s.C[c] = 0 \/ ~Pollable(s, s.C[c])
@@ -539,6 +555,8 @@ CmdEnabled(s, cmd) ==
                   /\ ~Woken(s, a)
                   /\ s.A[a].pc \in {"Run","Idle","Done"} \/ s.A[a].hop # 0
             /\ \A o \in OpIds : s.O[o].ph \in {"wait","granted","reply"} => s.O[o].dl < 0
+            /\ \A m \in 1..MaxMsg : s.T[m] # "run"          \* every spawned task has been told how to end
+       [] cmd.c = "task" -> s.T[cmd.m] = "run" /\ cmd.out \in TaskOuts
        [] OTHER -> FALSE
 
 DoRaw(s, cmd) ==
@@ -615,10 +633,13 @@ DoRaw(s, cmd) ==
          ELSE IF A.permits > 0
            THEN R(SetO(SetA(s, a, [permits |-> A.permits - 1, mbox |-> Append(A.mbox, o)]), o, [ph |-> "bg"]), <<>>)
            ELSE R(SetO(SetA(s, a, [waiters |-> Append(A.waiters, o)]), o, [ph |-> "wait"]), <<>>)
+    [] cmd.c = "task" ->
+         \* the task spawned by the handler of request m ends (it runs on a runtime of its own)
+         R([s EXCEPT !.T[cmd.m] = cmd.out], << [e |-> "TaskEnd", m |-> cmd.m, out |-> cmd.out] >>)
     [] cmd.c = "quiesce" ->
          R([s EXCEPT !.q = TRUE],
            << [e |-> "Quiescent",
-               pending |-> SetToSortSeq({o \in OpIds : s.O[o].ph \in {"wait","granted","reply"}},
+               pending |-> SetToSortSeq({o \in OpIds : s.O[o].ph \in {"wait","granted","reply","join"}},
                                         LAMBDA x, y : x < y),
                unjoined |-> SelectSeq(ActorSeq, LAMBDA a : s.A[a].sp /\ s.A[a].pc # "Done"),
                wf |-> LET cs == SelectSeq(ActorSeq, LAMBDA a : s.wf[a] # "")
@@ -631,7 +652,10 @@ Forget(s) ==
   LET live == UNION {{s.A[a].mbox[i] : i \in 1..Len(s.A[a].mbox)} \cup {s.A[a].cur} : a \in Actors}
   IN  [s EXCEPT !.O = [o \in OpIds |->
           IF s.O[o].ph \in {"done","dropped"} /\ o \notin live
-            THEN [NoOpRec EXCEPT !.ph = "done"] ELSE s.O[o]]]
+            THEN [NoOpRec EXCEPT !.ph = "done"] ELSE s.O[o]],
+                !.T = [m \in 1..MaxMsg |->
+          IF s.T[m] \in TaskOuts /\ ~\E o \in OpIds : s.O[o].m = m /\ (s.O[o].ph \notin {"done","dropped"} \/ o \in live)
+            THEN "none" ELSE s.T[m]]]
 
 \* every command is followed by one Sample per spawned actor (verification accessor H2)
 Do(s, cmd) ==
@@ -656,6 +680,7 @@ AdvanceCmds == {[c |-> "advance", d |-> d] : d \in 1..MaxTime}
 HandleCmds  == {[c |-> k, h |-> h] : k \in HandleOps \ {"erase"}, h \in HIds}
 EraseCmds   == {[c |-> "erase", h |-> h, vk |-> vk, by |-> by] : h \in HIds, vk \in EraseKinds, by \in {"val","ref"}}
 BgCmds      == {[c |-> "bg", op |-> o] : o \in OpIds}
+TaskCmds    == {[c |-> "task", m |-> m, out |-> x] : m \in 1..MaxMsg, x \in TaskOuts}
 QuiesceCmd  == [c |-> "quiesce"]
 
 =============================================================================
